@@ -139,6 +139,17 @@ int main(void)
   w.hist_size = 1;
   w_rf_frees = nondet_bool();
   econf_err r;
+  /* the process-wide drop-in directory list (econf_set_conf_dirs) - set or not */
+  const bool in_dirs_set = nondet_bool();
+  if (in_dirs_set) {
+    const char *lst[3] = { "x.d", "y", NULL };
+    econf_err e = econf_set_conf_dirs(lst);
+    __CPROVER_assert(e == ECONF_SUCCESS, "C01: the process-wide drop-in directory list can be set");
+  }
+#define PROCESS_WIDE_LIST_FORWARDED \
+  (in_dirs_set ? (w.conf_count == 2 && w.conf_dirs && w.conf_dirs[0] && w.conf_dirs[1] && !w.conf_dirs[2] && \
+                  same_path(w.conf_dirs[0], "x.d") && same_path(w.conf_dirs[1], "y")) \
+               : (w.conf_count == 0))
 #if FN == 1 || FN == 2
   const char *dist = nondet_bool() ? DIST : NULL, *etc = nondet_bool() ? ETC : NULL;
   econf_file *res = nondet_ptr();
@@ -154,7 +165,8 @@ int main(void)
                    "C12: configured with exactly the two directories, vendor first (NULL = empty)");
   __CPROVER_assert(w.name == name && w.suffix == suffix && w.delim == delim && w.comment == comment,
                    "C12: name, suffix, delimiters and comment set forwarded");
-  __CPROVER_assert(!w.join && !w.python && w.obj_conf_count == 0, "C12: no parsing options, process-wide drop-in list");
+  __CPROVER_assert(!w.join && !w.python && w.obj_conf_count == 0, "C12: no parsing options, no drop-in list of its own");
+  __CPROVER_assert(PROCESS_WIDE_LIST_FORWARDED, "C01/C12: the process-wide drop-in directory list is what the reader gets");
   __CPROVER_assert(r == w.ret, "C13: the reader's code is handed on");
   __CPROVER_assert(r == ECONF_SUCCESS ? res == w.merged : res == NULL,
                    "C06/C20: on failure no object is handed back, on success the merged one");
@@ -174,6 +186,7 @@ int main(void)
   __CPROVER_assert(w.name == name && w.suffix == suffix && w.delim == delim && w.comment == comment,
                    "C12: name, suffix, delimiters and comment set forwarded");
   __CPROVER_assert(!w.join && !w.python, "C12: no parsing options");
+  __CPROVER_assert(PROCESS_WIDE_LIST_FORWARDED, "C01/C12: the process-wide drop-in directory list is what the reader gets");
   __CPROVER_assert(r == w.ret, "C13: the reader's code is handed on");
   __CPROVER_assert(r == ECONF_SUCCESS ? (hist == w.hist && size == w.hist_size) : hist == NULL,
                    "C06/C20: on failure no history is handed back");
@@ -219,6 +232,7 @@ int main(void)
                      "C01: layers are <root><usr_subdir>[/<project>] < <root>/run[/<project>] < <root>/etc[/<project>]");
     __CPROVER_assert(w.name == (name ? name : project), "C01: without a config name the project names the drop-in directory");
     __CPROVER_assert(w.suffix == suffix && w.delim == delim && w.comment == comment, "C12: suffix, delimiters, comment set forwarded");
+    __CPROVER_assert(PROCESS_WIDE_LIST_FORWARDED, "C01/C12: the process-wide drop-in directory list is what the reader gets");
     if (!name)
       __CPROVER_assert(w.obj_conf_count == 1 && same_path(w_confdir0, ".d"),
                        "C01: drop-in-only mode looks into <project>.d");
